@@ -6,6 +6,9 @@ From Spec Require Sem.
 From Proofs Require ResolveShape UnrollSem TotalRec.
 From Spec Require Lang RegexLang.
 From Proofs Require LangSound RegexLangSound RegexFind ResolveOk.
+From Spec Require RegexOrder.
+From Proofs Require RegexOrderSound RegexOrderFind RegexOrderFun.
+From Coq Require Import Lia.
 From Model Require Engine Scan.
 From Coq Require Import Arith.
 Local Open Scope N_scope.
@@ -94,6 +97,53 @@ Theorem C14_find_all_reports_words :
 Proof. exact RegexFind.regex_find_all_lemma. Qed.
 Print Assumptions C14_find_all_reports_words.
 
+(* WHICH of the words is found first.  [RegexOrder.rd_ord text d p l] is the order in which a conventional
+   (Perl/PCRE-style) backtracking matcher finds the ways d can match at position p, written on the syntax of
+   the expression alone: a concatenation tries, for every end of its first part in order, every end of the
+   rest; l|r tries all of l before r; a greedy quantifier iterates once more before it stops, a lazy one
+   stops before it iterates, both within their bounds.  For every regular expression proper whose bracket
+   classes list no byte twice, the ordered outcomes of the resolved pattern (C01: the VM reports the first
+   of them) end at exactly these positions IN EXACTLY THIS ORDER, from every state of every text. *)
+Theorem C14_outcomes_in_backtracking_order :
+  forall text start defs, (forall t b p, defs t = Some (b, p) -> p = PNil /\ Lang.pure b) ->
+  forall d, RegexLang.reg_disj d -> RegexOrder.ord_disj d ->
+  forall g off gs r gs', resolve_exprs (fst (tr_disj d g)) off gs = GOk (r, gs') ->
+  forall s l, (fst s <= length text)%nat -> Sem.outs text start defs r s l -> RegexOrder.rd_ord text d (fst s) (map fst l).
+Proof.
+  intros text start defs Hdefs d Hreg Hord g off gs r gs' Hres.
+  exact (proj2 (proj2 (proj2 (RegexOrderSound.regex_order_mut text start defs Hdefs))) d Hreg Hord g off gs r gs' Hres).
+Qed.
+Print Assumptions C14_outcomes_in_backtracking_order.
+
+(* ... and end to end: for every such expression, written down, parsed and resolved as the body of a find
+   command, on EVERY text the VM's `find all` returns (for every large enough step budget) exactly the scan
+   [RegexOrder.rscan]: start offsets from the left; at each offset the FIRST end in the backtracking order;
+   an empty match is not reported; the search resumes at the end of a reported match, one byte further
+   otherwise.  No derivation, fuel or pattern tree appears in the hypotheses. *)
+Theorem C14_find_all_is_the_backtracking_scan :
+  forall d g e g' gs rc gs' text,
+  wf_disj d [] -> RegexLang.reg_disj d -> RegexOrder.ord_disj d -> ResolveOk.gs_ok gs ->
+  parse_regexp (show_disj d) g = POk (e, g') ->
+  resolve_exprs (ECons e ENil) 0 gs = GOk (rc, gs') ->
+  exists F, forall fuel, (F <= fuel)%nat ->
+    exists M, Scan.find_matches fuel (compile rc 0) text true 0 0 0 = Scan.SOk M /\
+      RegexOrder.rscan text d 0 (map (fun m => (Scan.mstart m, Scan.mend m)) M).
+Proof. exact RegexOrderFind.regex_find_all_order_lemma. Qed.
+Print Assumptions C14_find_all_is_the_backtracking_scan.
+
+(* the order specification is a function: one list of ends per expression, text and position, one scan per
+   text - so the two theorems above determine what is found *)
+Theorem C14_backtracking_order_is_functional :
+  forall text d, (forall p l1 l2, RegexOrder.rd_ord text d p l1 -> RegexOrder.rd_ord text d p l2 -> l2 = l1) /\
+                 (forall off S1 S2, RegexOrder.rscan text d off S1 -> RegexOrder.rscan text d off S2 -> S2 = S1).
+Proof.
+  intros text d. split.
+  - intros p l1 l2 H1 H2. exact (proj1 (proj2 (proj2 (proj2 (RegexOrderFun.ord_fun_mut text)))) d p l1 H1 l2 H2).
+  - intros off S1 S2 H1 H2. exact (RegexOrderFun.rscan_fun text d off S1 H1 S2 H2).
+Qed.
+Print Assumptions C14_backtracking_order_is_functional.
+
+
 (* every other byte string between @/ and / gives a tree or an error, never a panic or a hang *)
 Theorem C14_regex_parser_total : forall re g, parse_regexp re g <> PCrash /\ parse_regexp re g <> PFuel.
 Proof.
@@ -169,3 +219,33 @@ Example C14_capstone_witness :
   ResolveOk.gs_ok init_gstate /\
   exists e g' rc gs', parse_regexp (show_disj ex_reg) 0 = POk (e, g') /\ resolve_exprs (ECons e ENil) 0 init_gstate = GOk (rc, gs').
 Proof. split; [exact ResolveOk.init_gs_ok|]. vm_compute. eexists _, _, _, _. split; reflexivity. Qed.
+
+(* non-vacuity of the order: on "aaab"  a+  finds the ends 3, 2, 1 in this order and  a+?  the ends 1, 2, 3;
+   on "abb"  (?:(?:ab)|a)b?  tries ab.b, ab, a.b, a  - ends 3, 2, 2, 1 *)
+Ltac ord1 := cbv [RegexOrder.step1 nth_error RegexOrder.dot_ok];
+  first [ apply RegexOrder.ro_nil | apply RegexOrder.re_nil | apply RegexOrder.rqe_nil | apply RegexOrder.ro_char | apply RegexOrder.ro_esc
+        | apply RegexOrder.ro_dot | apply RegexOrder.ro_cls | apply RegexOrder.ro_bracket
+        | eapply RegexOrder.ro_group | eapply RegexOrder.ro_plain | (eapply RegexOrder.ro_quant; [reflexivity|]) | eapply RegexOrder.ro_one
+        | eapply RegexOrder.ro_alt | eapply RegexOrder.ro_cons | eapply RegexOrder.re_cons | eapply RegexOrder.rqe_cons
+        | (eapply RegexOrder.rq_must; [cbn; lia| |]) | (eapply RegexOrder.rq_greedy; [cbn; lia|reflexivity| |])
+        | (eapply RegexOrder.rq_lazy; [cbn; lia|reflexivity| |]) | (apply RegexOrder.rq_full; [cbn; lia|reflexivity]) ].
+
+Definition ex_plus (lz : bool) : rdis := DCons (POne (RQ (RChar 97) (Some (QPlus, lz)))) DNil.
+Definition ex_alt : rdis :=
+  DCons (POne (RQ (RGroup GNon (DCons (PAlt (RQ (RGroup GNon (DCons (POne (RQ (RChar 97) None)) (DCons (POne (RQ (RChar 98) None)) DNil))) None)
+                                             (POne (RQ (RChar 97) None))) DNil)) None))
+        (DCons (POne (RQ (RChar 98) (Some (QOpt, false)))) DNil).
+
+Example C14_order_witness :
+  (exists l, RegexOrder.rd_ord [97; 97; 97; 98] (ex_plus false) 0 l /\ l = [3; 2; 1]%nat) /\
+  (exists l, RegexOrder.rd_ord [97; 97; 97; 98] (ex_plus true) 0 l /\ l = [1; 2; 3]%nat) /\
+  (exists l, RegexOrder.rd_ord [97; 98; 98] ex_alt 0 l /\ l = [3; 2; 2; 1]%nat) /\
+  RegexLang.reg_disj ex_reg /\ RegexOrder.ord_disj ex_reg.
+Proof.
+  split; [|split; [|split; [|split]]].
+  - eexists. split; [repeat ord1|cbv; reflexivity].
+  - eexists. split; [repeat ord1|cbv; reflexivity].
+  - eexists. split; [repeat ord1|cbv; reflexivity].
+  - exact (proj1 (proj2 C14_language_witness)).
+  - cbn. auto.
+Qed.
